@@ -52,6 +52,14 @@ def derivativeSurface (pu pv : Nat) (Uu Uv : List K) (su sv : Nat) (P : List (Li
    (pu, pv - 1, Uu, kvInner Uv, su, sv - 1, pklNet pkl 0 1 su (sv - 1)),
    (pu - 1, pv - 1, kvInner Uu, kvInner Uv, su - 1, sv - 1, pklNet pkl 1 1 (su - 1) (sv - 1)))
 
+/-- what the knot-vector setters of a constructed surface store: `knotvector.normalize` is applied in the
+    directions (`nu`, `nv`) whose setter runs on an object created with `normalize_kv=True` (for `surf_u` / `surf_v`,
+    deep copies of the input, the differentiated direction iff the input normalises; for `surf_uv`, a fresh
+    `obj.__class__()`, both directions always) -/
+def surfDataNormalize (nu nv : Bool) (s : SurfData K) : SurfData K :=
+  (s.1, s.2.1, (if nu then knotNormalize s.2.2.1 else s.2.2.1), (if nv then knotNormalize s.2.2.2.1 else s.2.2.2.1),
+   s.2.2.2.2.1, s.2.2.2.2.2.1, s.2.2.2.2.2.2)
+
 /-- `tangent_curve_single(obj, u, normalize=False)`: `(ders[0], ders[1])` of `obj.derivatives(u, 1)` -/
 def tangentCurve (ders : List (List K)) : List K × List K := (ders.getD 0 [], ders.getD 1 [])
 
